@@ -47,7 +47,9 @@ Shapes == <<
   \* a colour without hex digits is black: with an alpha value, with alpha zero (46, 47; a bare "#" is a colour only at the very end of the abbreviation)
   ColShape("", ".5"), ColShape("", ".0"),
   \* zero written as a float stays bare like any zero (48, 49)
-  NumShape(FALSE, "0.0", "0", TRUE, TRUE, ""), NumShape(FALSE, ".0", "0", TRUE, TRUE, "") >>
+  NumShape(FALSE, "0.0", "0", TRUE, TRUE, ""), NumShape(FALSE, ".0", "0", TRUE, TRUE, ""),
+  \* no channel is a doubled digit, yet the sum of the channels is a multiple of 17 (50, 51)
+  ColShape("100001", ""), ColShape("010f01", "") >>
 Keys == << [key |-> "p",  prop |-> "padding",     unitless |-> FALSE, takes |-> "num"],
            [key |-> "m",  prop |-> "margin",      unitless |-> FALSE, takes |-> "num"],
            [key |-> "z",  prop |-> "z-index",     unitless |-> TRUE,  takes |-> "num"],
